@@ -811,3 +811,120 @@ Proof.
     split; [constructor; cbn; auto|]. c_tac. rewrite Es. c_tac.
   - split; [exact HI|reflexivity].
 Qed.
+
+Lemma Inv_B_init : forall held ev0 sp, Inv_B (binit held ev0 sp).
+Proof. intros. constructor; cbn; auto; try discriminate; try (intros; discriminate). Qed.
+
+Lemma Inv_B_run : forall l s0, Inv_B s0 -> Inv_B (brun (mkBC false) l s0).
+Proof.
+  unfold brun. induction l as [|a l IH]; intros s0 H0; cbn; auto.
+  apply IH. apply (bstep_conserves (mkBC false) a s0 (mkMsg 0 0 false) eq_refl H0).
+Qed.
+
+(** bridge_conservation (the part of bridge_relays_exactly_once_per_direction that holds):
+    under every schedule of application / reader / old connector I/O / wrapper I/O, the
+    reader thread survives and every message of the scenario is, with its multiplicity, in
+    exactly one place: relayed to the peer, handled by the old connector instead, held, or
+    still on its way.  Nothing is relayed twice, nothing vanishes. *)
+Lemma bridge_conservation :
+  forall held ev0 sp sched x,
+    let s := brun (mkBC false) sched (binit held ev0 sp) in
+    b_rpc s <> BR_Dead /\ cnt x (ball s) = cnt x (held ++ ev0 ++ msgs_of (concat sp)).
+Proof.
+  intros held ev0 sp sched x.
+  assert (H : forall l s0, Inv_B s0 ->
+            Inv_B (brun (mkBC false) l s0) /\ cnt x (ball (brun (mkBC false) l s0)) = cnt x (ball s0)).
+  { induction l as [|a l IH]; intros s0 H0; cbn; auto.
+    destruct (bstep_conserves (mkBC false) a s0 x eq_refl H0) as (H1 & E1).
+    destruct (IH _ H1) as (H2 & E2). split; auto. unfold brun in *. rewrite E2. exact E1. }
+  destruct (H sched _ (Inv_B_init held ev0 sp)) as (HI & E). cbv zeta. split; [apply (ib_alive _ HI)|].
+  rewrite E. unfold ball, binit, bhand_c, bhand_x, bhand_a, bhand_r. cbn.
+  rewrite ?cnt_app, ?cnt_nil. lia.
+Qed.
+
+Lemma bridge_quiescent_accounts_for_all :
+  forall held ev0 sp sched x,
+    let s := brun (mkBC false) sched (binit held ev0 sp) in
+    bquiet s = true -> b_outq s = [] ->
+    cnt x (b_peer s ++ b_lost s ++ filter (fun m => negb (m_pkt m)) (b_deliv_o s) ++ b_lq s)
+    = cnt x (held ++ ev0 ++ msgs_of (concat sp)).
+Proof.
+  intros held ev0 sp sched x s Hq Ho.
+  destruct (bridge_conservation held ev0 sp sched x) as (_ & E). fold s in E. rewrite <- E.
+  unfold bquiet in Hq. unfold ball, bhand_c, bhand_x, bhand_a, bhand_r.
+  destruct (b_apc s); try discriminate. destruct (b_rpc s) eqn:Er; try discriminate.
+  destruct (b_cpc s); try discriminate. destruct (b_xpc s); try discriminate.
+  destruct (b_wire s); try discriminate. destruct (b_spont s); try discriminate.
+  destruct (b_ev_o s); try discriminate. destruct (b_ev_w s); try discriminate.
+  rewrite Ho. cbn.
+  assert (Eb : b_rbuf s = []).
+  { assert (HI : Inv_B s) by (apply Inv_B_run; apply Inv_B_init).
+    apply (ib_rbuf _ HI). exact Er. }
+  rewrite Eb. cbn. rewrite ?cnt_app, ?cnt_nil. lia.
+Qed.
+
+(** The full statement, and what refutes it. *)
+Definition bridge_relays_exactly_once_per_direction_statement : Prop :=
+  forall held ev0 sp sched,
+    let s := brun (mkBC false) sched (binit held ev0 sp) in
+    bquiet s = true -> b_peer s = held ++ ev0 ++ msgs_of (concat sp).
+
+Definition p1 := mkMsg 0 1 true.
+Definition p2 := mkMsg 0 2 true.
+
+(** Bridge.__init__ attaches the wrapper, then flushes what was held: a packet arriving in
+    between overtakes the held one. *)
+Definition br_sched_order : list baction :=
+  repeat BA 8 ++ [BEmit] ++ repeat BR 7 ++ repeat BX 7 ++ repeat BA 12.
+
+(** An event still in the old connector's queue is processed by the old connector's I/O
+    thread after the unlock: it is handed to the old connector's packet handler, never
+    relayed. *)
+Definition br_sched_loss : list baction := repeat BA 20 ++ repeat BC 9.
+
+Lemma bridge_refuted :
+  (exists held ev0 sp sched,
+     let s := brun (mkBC false) sched (binit held ev0 sp) in
+     bquiet s = true /\ b_peer s = [p2; p1] /\ held ++ ev0 ++ msgs_of (concat sp) = [p1; p2])
+  /\
+  (exists held ev0 sp sched,
+     let s := brun (mkBC false) sched (binit held ev0 sp) in
+     bquiet s = true /\ b_peer s = [] /\ b_lost s = [p1] /\ held ++ ev0 ++ msgs_of (concat sp) = [p1]).
+Proof.
+  split.
+  - exists [p1], [], [[Some p2]], br_sched_order. vm_compute. repeat split; reflexivity.
+  - exists [], [p1], [], br_sched_loss. vm_compute. repeat split; reflexivity.
+Qed.
+
+Lemma bridge_statement_refuted : ~ bridge_relays_exactly_once_per_direction_statement.
+Proof.
+  intro H. specialize (H [p1] [] [[Some p2]] br_sched_order). cbv zeta in H.
+  assert (E : bquiet (brun (mkBC false) br_sched_order (binit [p1] [] [[Some p2]])) = true) by (vm_compute; reflexivity).
+  specialize (H E).
+  assert (X : list_eqb msg_eqb (b_peer (brun (mkBC false) br_sched_order (binit [p1] [] [[Some p2]])))
+                       ([p1] ++ [] ++ msgs_of (concat [[Some p2]])) = false) by (vm_compute; reflexivity).
+  rewrite H in X. vm_compute in X. discriminate X.
+Qed.
+
+(** Connector.__init__ as found: the reader thread dies on the half-built wrapper. *)
+Lemma bridge_legacy_ctor_refuted :
+  exists sp sched,
+    b_rpc (brun (mkBC true) sched (binit [] [] sp)) = BR_Dead.
+Proof.
+  exists [[Some p1]], (repeat BA 3 ++ [BEmit] ++ repeat BR 7). vm_compute. reflexivity.
+Qed.
+
+(** When nothing is held, nothing is pending and the device only emits after __init__ has
+    returned, the wrapper path alone is used; that path is FIFO (checked by the oracle on the
+    implementation; see design/C05.md for why it is not a theorem here). *)
+
+Definition nv5_sched : list action :=
+  [Emit; Step TR; Step TR; Step TR; Step TR; Step TR; Step TR; Step TC; Step TC; Step TC; Step TC; Step TC;
+   Step TA; Step TA; Emit] ++ concat (repeat [Step TA; Step TR; Step TC] 20).
+
+Lemma nonvacuous5 :
+  let cfg := mkConfig true false 3 false false false false in
+  lock_wf true [OUnlock] /\
+  let s := run cfg nv5_sched (init cfg [OUnlock] [[Some (mkMsg 0 1 true)]; [Some (mkMsg 0 2 true)]] true) in
+  dispatched s = [mkMsg 0 1 true; mkMsg 0 2 true] /\ locked_q s = [] /\ locked s = false.
+Proof. cbv zeta. split; [exact I|]. vm_compute. repeat split; reflexivity. Qed.
